@@ -2,7 +2,8 @@
 Driver.Config — line protocol for property C18 (DESIGN.md Appendix A "Config", extended).
 
 Strings travel as `u:` followed by '.'-separated hexadecimal code points (`u:` = empty string).
-Option values in layer stacks are tokens: `N` (None), `S:<codepoints>` (str), `I:<int>`, `B:0|1`.
+Option values in layer stacks / toml tables are tokens: `N` (None), `S:<codepoints>` (str), `I:<int>`, `B:0|1`,
+`F:<codepoints of str(float)>`, `L:[i,…]` (array of ints), `D:{}` (empty table), `O` (anything else).
 
 Requests (one reply line each; ill-formed requests answer `bad-op`):
   reset                                   -> ok                      (empty stack)
@@ -98,6 +99,8 @@ def parseTok? (s : String) : Option (Option Val) :=
   else if s.startsWith "S:" then (decodeU? ("u:" ++ dropS 2 s)).map (fun x => some (.str x))
   else if s.startsWith "F:" then (decodeU? ("u:" ++ dropS 2 s)).map (fun x => some (.float x))
   else if s.startsWith "I:" then (parseInt? (dropS 2 s)).map (fun i => some (.int i))
+  else if s.startsWith "L:" then (parseIntList? (dropS 2 s)).map (fun l => some (.ints l))
+  else if s = "D:{}" then some (some (.lengths []))
   else if s = "B:1" then some (some (.bool true))
   else if s = "B:0" then some (some (.bool false))
   else none
